@@ -47,9 +47,9 @@ def c01_ok(e):
 class BatchScenario:
     """BatchSage / IntervalSage with all four callback kinds behind one failpoint clock."""
 
-    def __init__(self, kind, seed, rnd):
+    def __init__(self, kind, seed, rnd, reservoir=None):
         from ixai.explainer import BatchSage, IntervalSage
-        from ixai.storage import BatchStorage, IntervalStorage
+        from ixai.storage import BatchStorage, IntervalStorage, UniformReservoirStorage, GeometricReservoirStorage
         from ixai.imputer import MarginalImputer
         random.seed(seed)
         np.random.seed(seed)
@@ -61,7 +61,13 @@ class BatchScenario:
         self.loss = Losses("hash", exact=True, clock=self.clock)
         self.original = kind == "batch" and rnd.random() < .4
         n_inner = rnd.choice([1, 2])
-        if kind == "batch":
+        if kind == "batch" and reservoir:     # BatchSage on a reservoir storage (a legal BaseStorage): used by C07's explainer-driven storages
+            cls_ = UniformReservoirStorage if reservoir == "uniform" else GeometricReservoirStorage
+            st = storage_proxy(cls_, self.clock, True)(size=3, store_targets=True)
+            self.e = BatchSage(self.model, self.names, self.loss, n_inner_samples=n_inner, storage=st,
+                               imputer=ImputerProxy(MarginalImputer(self.model, "joint", st), self.clock))
+            self.kw = {"original_sage": False, "verbose": False}
+        elif kind == "batch":
             st = storage_proxy(BatchStorage, self.clock, True)(store_targets=True)
             self.e = BatchSage(self.model, self.names, self.loss, n_inner_samples=n_inner, storage=st,
                                imputer=ImputerProxy(MarginalImputer(self.model, "joint", st), self.clock))
@@ -75,7 +81,7 @@ class BatchScenario:
             self.kw = {"verbose": False}
         self.t = 0
         self.storage = st
-        self.capacity = win if kind != "batch" else 10 ** 9
+        self.capacity = 3 if reservoir else (win if kind != "batch" else 10 ** 9)
         self.cfg = {"explainer": kind, "d": d, "n_inner": n_inner, "original": self.original, "exact": True}
 
     def next_obs(self):
@@ -127,6 +133,8 @@ def main(run):
         cfg = gen_cfg(rnd, "sage", exact=False)
         cfg.update(d=min(cfg["d"], 3), n_inner=min(cfg["n_inner"], 2), steps=STREAM[run.tier], model="array1", loss="sqf",
                    dyn=(i % 2 == 0), imputer=rnd.choice(["joint", "product", "custom"]), manual_updates=False)
+        if cfg["storage"][0] == "tree":       # (storage contents are compared through get_data(), which a TreeStorage does not offer)
+            cfg["storage"] = ("interval", 3, True)
         scenarios.append(("incr", cfg, rnd.randrange(2 ** 31)))
     for i in range(N_BATCH[run.tier]):
         for kind in ("batch", "interval"):
